@@ -78,7 +78,7 @@ theorem C02_advanced_irrelevant (q : List Tok) (h : quantCore q = true) (s : BP 
     trace (no event, no panic; the cursor is restored) -/
 theorem C02_advanced_declines (s : BP α) (hc : s.cur = 0) (h : advNone s.toks = true) :
     withRecover parseAdvancedQuantity s = (none, s) :=
-  withRecover_none (parseAdvancedQuantity_declines s hc h)
+  withRecover_none_ext (parseAdvancedQuantity_declines s hc h)
 
 /-- TIMER_REQUIRES_TIME (and the alias gate of timers): on a block whose components are core
     (`stepCore`: in particular every timer has a quantity) the timer parser does not depend on the
